@@ -309,6 +309,15 @@ let main_seq file do_abs =
                    else detail ^ " pagemodel=differs"
                  | None -> detail)
               | _ -> detail)
+           | _ :: "readdirplus" :: _ :: cookie :: dircount :: maxcount :: _, Some (ODir (N0, ents, eof)) when do_abs ->
+             (match !call with
+              | Some (CReaddir (h, _)) ->
+                (match parse_handle h with
+                 | Some (i, _) ->
+                   if readdirplus_matches_model !sz !disk i (n_of_string cookie) (n_of_string dircount) (n_of_string maxcount) ents eof then detail
+                   else detail ^ " pagemodel=differs"
+                 | None -> detail)
+              | _ -> detail)
            | _ -> detail in
          let illformed (n : byte0 list) = n = [] || List.exists (fun b -> let v = int_of_n (Extracted.to_N b) in v = 0x2f || v = 0) n in
          let detail = match !call with
